@@ -148,16 +148,16 @@ impl SkipElem for Option<i32> {
 
 fn skip_one<T: SkipElem>(cfg: &Cfg, rep: &mut Report, rng: &mut Lcg) where T::NotNan: Ord + Clone + std::fmt::Debug {
     let al = T::alpha();
-    let shapes: Vec<Vec<usize>> = if cfg.thorough { vec![vec![0], vec![1], vec![2], vec![3], vec![4], vec![2, 2], vec![2, 3], vec![0, 2], vec![2, 0], vec![2, 0, 3], vec![2, 2, 2]] } else { vec![vec![0], vec![1], vec![2], vec![3], vec![2, 2], vec![0, 2], vec![2, 0], vec![2, 1, 2]] };
+    let shapes: Vec<Vec<usize>> = if cfg.thorough { vec![vec![0], vec![1], vec![2], vec![3], vec![4], vec![2, 2], vec![2, 3], vec![0, 2], vec![2, 0], vec![2, 0, 3], vec![2, 2, 2]] } else { vec![vec![0], vec![1], vec![2], vec![3], vec![2, 2], vec![0, 2], vec![2, 0], vec![2, 1, 2], vec![2, 2, 2]] };
     for shape in shapes {
         let size: usize = shape.iter().product();
-        let ncodes = if size <= 4 { al.len().pow(size as u32) } else { 300 };
+        let ncodes = if size <= 4 { al.len().pow(size as u32) } else if cfg.thorough { 300 } else { 60 };
         for k in 0..ncodes {
             let code = if size <= 4 { k } else { rng.next() as usize };
             let base = fill(&shape, &al, code);
             let keys: Vec<Option<i64>> = base.iter().map(|x| x.key()).collect();
             let present: Vec<i64> = keys.iter().filter_map(|k| *k).collect();
-            for lay in ["c", "f", "stepped"] {
+            for lay in ["c", "f", "stepped", "rev0"] {
                 let case = format!("skipnan;{};shape={:?};data={:?};layout={}", T::NAME, shape, keys, lay);
                 if !rep.want(cfg, &case) { continue; }
                 let rl = Relayout::new(&base, lay, al[1].clone());
@@ -205,11 +205,20 @@ fn skip_one<T: SkipElem>(cfg: &Cfg, rep: &mut Report, rng: &mut Lcg) where T::No
                         let counts = v.fold_axis_skipnan(Axis(ax), 0usize, |acc, _| acc + 1);
                         let want: Vec<usize> = lanes.iter().map(|l| l.iter().filter(|k| k.is_some()).count()).collect();
                         if counts.iter().copied().collect::<Vec<_>>() != want { bad.push(format!("fold_axis_skipnan axis {} counts {:?} want {:?}", ax, counts, want)); }
+                        // an order-sensitive fold: result j is the left fold of the remaining elements of lane j, in axis order
+                        let sig = v.fold_axis_skipnan(Axis(ax), 7i64, |acc, x| acc.wrapping_mul(31).wrapping_add(T::from_not_nan(x.clone()).key().unwrap()));
+                        let want_sig: Vec<i64> = lanes.iter().map(|l| l.iter().filter_map(|k| *k).fold(7i64, |a, k| a.wrapping_mul(31).wrapping_add(k))).collect();
+                        if sig.iter().copied().collect::<Vec<_>>() != want_sig { bad.push(format!("fold_axis_skipnan axis {}: per-lane folds {:?}, filter-then-fold gives {:?}", ax, sig, want_sig)); }
                         // map_axis_skipnan_mut on a copy: each lane handed over is the filtered lane (as a multiset)
                         let mut rl2 = Relayout::new(&base, lay, al[1].clone());
                         let mut vm = rl2.view_mut();
                         let got = vm.map_axis_skipnan_mut(Axis(ax), |lane| lane.len());
                         if got.iter().copied().collect::<Vec<_>>() != want { bad.push(format!("map_axis_skipnan_mut axis {} lane lengths", ax)); }
+                        // result j is the mapping applied to the remaining elements of lane j (as a multiset: the order is unspecified)
+                        let mut rl7 = Relayout::new(&base, lay, al[1].clone());
+                        let sums = rl7.view_mut().map_axis_skipnan_mut(Axis(ax), |lane| lane.iter().fold(0i64, |a, x| a.wrapping_add(T::from_not_nan(x.clone()).key().unwrap().wrapping_mul(3) + 1)));
+                        let want_sums: Vec<i64> = lanes.iter().map(|l| l.iter().filter_map(|k| *k).fold(0i64, |a, k| a.wrapping_add(k.wrapping_mul(3) + 1))).collect();
+                        if sums.iter().copied().collect::<Vec<_>>() != want_sums { bad.push(format!("map_axis_skipnan_mut axis {}: per-lane results {:?}, map over the filtered lanes gives {:?}", ax, sums, want_sums)); }
                         // the lanes still hold their multisets
                         let after: Vec<Vec<Option<i64>>> = vm.lanes(Axis(ax)).into_iter().map(|l| { let mut k: Vec<Option<i64>> = l.iter().map(|x| x.key()).collect(); k.sort(); k }).collect();
                         let before: Vec<Vec<Option<i64>>> = lanes.iter().map(|l| { let mut k = l.clone(); k.sort(); k }).collect();
